@@ -139,14 +139,15 @@ func checkRoutingCountFlow(c *Ctx, res *report.Result) {
 				if st, isSt := ins.(*ssa.Store); isSt {
 					if fa, isFA := st.Addr.(*ssa.FieldAddr); isFA {
 						name := flow.FieldName(fa.X.Type(), fa.Field)
-						if p, isP := st.Val.(*ssa.Parameter); isP && (name == "routingParameters" || name == "adminClientReverse" || name == "lcmParameters" || name == "adminClient") && p.Name() == name {
+						want := map[string]int{"adminClient": 1, "adminClientReverse": 2, "lcmParameters": 7, "routingParameters": 8}
+						if idx, known := want[name]; known && idx < len(f.Params) && st.Val == ssa.Value(f.Params[idx]) {
 							ok++
 						}
 					}
 				}
 			}
 		}
-		res.Check(ok == 4, rule, "NewAdminServiceProxyServer stores its clients and parameter structs in the fields of the same name", fnPos(c.Prog, f), "ok", "a constructor argument lands in another field")
+		res.Check(ok == 4, rule, "NewAdminServiceProxyServer stores its clients and parameter structs in the matching fields (by argument position)", fnPos(c.Prog, f), "ok", "a constructor argument lands in another field")
 	}
 }
 
